@@ -113,6 +113,41 @@ def rtext(e, env=None) -> str:
 
 
 # ---------------------------------------------------------------------------
+def _all_tail(stmts) -> bool:
+    """every Return of this statement list is in tail position: the list ends in a return / a raise / an if-else whose arms
+    do, and nothing before that contains a return"""
+    if not stmts:
+        return False
+    for s in stmts[:-1]:
+        if any(isinstance(x, ast.Return) for x in walk_no_nested(s)) or isinstance(s, ast.Return):
+            return False
+    last = stmts[-1]
+    if isinstance(last, (ast.Return, ast.Raise)):
+        return True
+    if isinstance(last, ast.If):
+        return bool(last.orelse) and _all_tail(last.body) and _all_tail(last.orelse)
+    return False
+
+
+def _tail_replace(stmts, make):
+    """copy of a tail-return statement list with every `return E` replaced by make(E)"""
+    if not stmts:
+        return []
+    out = [copy.deepcopy(s) for s in stmts[:-1]]
+    last = stmts[-1]
+    if isinstance(last, ast.Return):
+        out += make(copy.deepcopy(last.value))
+    elif isinstance(last, ast.If):
+        n = copy.copy(last)
+        n.test = copy.deepcopy(last.test)
+        n.body = _tail_replace(last.body, make)
+        n.orelse = _tail_replace(last.orelse, make)
+        out.append(n)
+    else:
+        out.append(copy.deepcopy(last))
+    return out
+
+
 def expand_helpers(model: Model, cls: ClassInfo, func: ast.FunctionDef, depth: int = 2, skip=("v_",)) -> ast.FunctionDef:
     """Copy of `func` in which statement-level calls `self.helper(args)` (also
     `return self.helper(args)` and `x = self.helper(args)` for helpers whose
@@ -140,7 +175,9 @@ def expand_helpers(model: Model, cls: ClassInfo, func: ast.FunctionDef, depth: i
         # returns only as the last top-level statement
         rets = [n for n in walk_no_nested(h) if isinstance(n, ast.Return)]
         if rets and not (len(rets) == 1 and h.body and h.body[-1] is rets[0]):
-            return None
+            # several returns are fine when each is the last thing its branch does (an if/elif/else ladder of results)
+            if not _all_tail(h.body):
+                return None
         return h
 
     def instantiate(h: ast.FunctionDef, call: ast.Call):
@@ -204,6 +241,16 @@ def expand_helpers(model: Model, cls: ClassInfo, func: ast.FunctionDef, depth: i
                 continue
             body = instantiate(h, call)
             last = body[-1] if body else None
+            if sum(1 for s_ in body for x_ in ast.walk(s_) if isinstance(x_, ast.Return)) > 1 and _all_tail(body):
+                # a ladder of results: every `return E` becomes what the call site does with the result
+                if mode == "assign":
+                    mk = lambda v, st=st: [ast.Assign(targets=copy.deepcopy(st.targets), value=v if v is not None else ast.Constant(None), lineno=st.lineno, col_offset=0)]
+                elif mode == "return":
+                    mk = lambda v, st=st: [ast.Return(value=v, lineno=st.lineno, col_offset=0)]
+                else:
+                    mk = lambda v, st=st: ([ast.Expr(value=v, lineno=st.lineno, col_offset=0)] if v is not None else [ast.Pass(lineno=st.lineno, col_offset=0)])
+                out.extend(_tail_replace(body, mk))
+                continue
             if mode == "stmt":
                 if isinstance(last, ast.Return):
                     body = body[:-1] + ([ast.Expr(value=last.value, lineno=st.lineno, col_offset=0)] if last.value is not None else [])
@@ -225,6 +272,34 @@ def expand_helpers(model: Model, cls: ClassInfo, func: ast.FunctionDef, depth: i
     if depth > 1:
         return expand_helpers(model, cls, f2, depth - 1, skip) if unparse(f2) != unparse(func) else f2
     return f2
+
+
+def constant_params(model: Model, func: ast.FunctionDef, method: bool = True) -> Dict[str, object]:
+    """{parameter: value} for the parameters of `func` that receive the same literal constant at every call site of that name
+    in the repository (or are omitted everywhere and default to a literal): an option nobody uses yet.  Tests on them fold."""
+    params = [a.arg for a in func.args.args[(1 if method else 0):]]
+    defaults = dict(zip(reversed(params), reversed(func.args.defaults)))
+    for a, d in zip(func.args.kwonlyargs, func.args.kw_defaults):
+        params.append(a.arg)
+        if d is not None:
+            defaults[a.arg] = d
+    names = {func.name, func.name.lstrip("_"), "__" + func.name.split("__")[-1]}
+    sites = [c for fi in model.files.values() for c in ast.walk(fi.tree) if isinstance(c, ast.Call) and (last_attr(c) in names or (isinstance(c.func, ast.Name) and c.func.id in names))]
+    out = {}
+    if not sites:
+        return out
+    npos = len(func.args.args) - (1 if method else 0)
+    for i, p in enumerate(params):
+        vals = []
+        for c in sites:
+            if any(isinstance(a, ast.Starred) for a in c.args) or any(k.arg is None for k in c.keywords):
+                vals.append(None)
+                continue
+            v = c.args[i] if i < npos and i < len(c.args) else next((k.value for k in c.keywords if k.arg == p), defaults.get(p))
+            vals.append(v)
+        if vals and all(isinstance(v, ast.Constant) for v in vals) and len({repr(v.value) for v in vals}) == 1:
+            out[p] = vals[0].value
+    return out
 
 
 def inline_pure_calls(cls: ClassInfo, expr: ast.AST, selfn: str = "self", depth: int = 2) -> ast.AST:
